@@ -522,7 +522,7 @@ class PGFile:
     ):
         self.productions = productions
         self.terminals = terminals
-        self.classes = classes if classes else {}
+        self.classes = classes if classes is not None else {}
         self.grammar: Optional[Grammar]
         if grammar is not None:
             assert isinstance(grammar, Grammar)
